@@ -103,6 +103,9 @@ pub trait BlsTimeCrypt:
             } else {
                 return CtOption::new(w.to_vec(), 0u8.into());
             }
+        } else {
+            // a payload whose length prefix cannot be read is not the empty message
+            return CtOption::new(w.to_vec(), 0u8.into());
         }
 
         let msg_dst = Sha256::digest(&message);
